@@ -55,6 +55,59 @@ class ClientLog:
             return self.on_event(event, arg)       # may return an awaitable (asyncio client)
 
 
+class Composite:
+    """One clock, a baton scheduler and a virtual-time loop advanced together (DESIGN.md 2.4,
+    hybrid world): threaded code runs under the scheduler, asyncio code on the loop, the harness
+    thread alternates between them until both are quiet."""
+
+    def __init__(self, clock, sched, loop):
+        self.clock, self.sched, self.loop = clock, sched, loop
+        self.waiters = []            # asyncio futures waiting for something threads produce
+        self.conns = []              # WsConn objects whose asyncio-side waiters need waking
+
+    def wake(self):
+        ws, self.waiters = self.waiters, []
+        for fut in ws:
+            if not fut.done():
+                fut.set_result(None)
+        for c in self.conns:
+            cw = getattr(c, '_client_waiters', None)
+            if cw:
+                c._client_waiters = []
+                for fut in cw:
+                    if not fut.done():
+                        fut.set_result(None)
+
+    def settle(self, pick=None):
+        for _ in range(10000):
+            self.sched.settle(pick)
+            self.wake()
+            self.loop.run_until_idle(0.0)
+            if not self.sched.runnable():
+                return
+        raise RuntimeError('hybrid world livelock')
+
+    def next_deadline(self):
+        ds = [d for d in (self.sched.next_deadline(), self.loop.next_timer()) if d is not None]
+        return min(ds) if ds else None
+
+    def advance_to(self, t):
+        for _ in range(1000000):
+            self.settle()
+            nd = self.next_deadline()
+            if nd is None or nd > t:
+                break
+            self.sched.advance_to(nd)
+            self.wake()
+            self.loop.run_until(nd)
+        self.sched.advance_to(t)
+        self.loop.run_until(t)
+        self.settle()
+
+    def advance(self, dt):
+        self.advance_to(self.clock.now + dt)
+
+
 # ---------------------------------------------------------------------------------------------
 # threaded client
 # ---------------------------------------------------------------------------------------------
@@ -96,12 +149,22 @@ class TClientHarness:
     impl = 'thread'
 
     def __init__(self, server_config=None, faults=(), client_kwargs=None, ws_read_timeout=True,
-                 latency=2.0 ** -6, app_kwargs=None):
+                 latency=2.0 ** -6, app_kwargs=None, server='thread'):
         import engineio
         import engineio.client as ec
         self.latency = latency          # virtual time one HTTP round trip / WS connect takes
-        self.world = TWorld(server_config, ws_read_timeout=ws_read_timeout, app_kwargs=app_kwargs)
-        self.sched = self.world.sched
+        self.comp = None
+        if server == 'async':
+            from . import clock as vclock
+            clock = vclock.reset()
+            self.sched = vsched.Sched(clock)
+            vsched.set_sched(self.sched)
+            self.world = AWorld(server_config, app_kwargs=app_kwargs, clock=clock)
+            self.comp = Composite(clock, self.sched, self.world.loop)
+        else:
+            self.world = TWorld(server_config, ws_read_timeout=ws_read_timeout,
+                                app_kwargs=app_kwargs)
+            self.sched = self.world.sched
         self.clock = self.world.clock
         self.faults = Faults(faults)
         self.log = ClientLog(self.clock)
@@ -242,16 +305,16 @@ class TClientHarness:
         return c
 
     def settle(self):
-        self.world.settle()
+        (self.comp or self.world).settle()
 
     def advance(self, dt):
-        self.world.advance(dt)
+        (self.comp or self.world).advance(dt)
 
     def advance_to(self, t):
-        self.world.advance_to(t)
+        (self.comp or self.world).advance_to(t)
 
     def next_deadline(self):
-        return self.world.next_deadline()
+        return (self.comp or self.world).next_deadline()
 
 
     def run_until(self, pred, max_dt):
@@ -358,11 +421,21 @@ class AClientHarness:
     impl = 'async'
 
     def __init__(self, server_config=None, faults=(), client_kwargs=None, latency=2.0 ** -6,
-                 app_kwargs=None):
+                 app_kwargs=None, server='async'):
         import engineio
         self.latency = latency
-        self.world = AWorld(server_config, app_kwargs=app_kwargs)
-        self.loop = self.world.loop
+        self.comp = None
+        if server == 'thread':
+            from . import clock as vclock
+            from .vloop import VLoop
+            clock = vclock.reset()
+            self.loop = VLoop(clock)
+            self.world = TWorld(server_config, app_kwargs=app_kwargs, clock=clock,
+                                ws_read_timeout=True)
+            self.comp = Composite(clock, self.world.sched, self.loop)
+        else:
+            self.world = AWorld(server_config, app_kwargs=app_kwargs)
+            self.loop = self.world.loop
         self.clock = self.world.clock
         self.faults = Faults(faults)
         self.log = ClientLog(self.clock)
@@ -391,6 +464,13 @@ class AClientHarness:
         self.client.on('disconnect', on_disconnect)
         self.calls = []
 
+    async def wait_threads(self, pred):
+        """(hybrid world) wait on the loop for something the scheduled threads produce."""
+        while not pred():
+            fut = self.loop.create_future()
+            self.comp.waiters.append(fut)
+            await fut
+
     def client_call(self, name, *args, **kwargs):
         c = types.SimpleNamespace(name=name, args=args, done=False, exc=None, result=None,
                                   t_start=self.clock.now, t_end=None)
@@ -411,16 +491,16 @@ class AClientHarness:
         return c
 
     def settle(self):
-        self.world.settle()
+        (self.comp or self.world).settle()
 
     def advance(self, dt):
-        self.world.advance(dt)
+        (self.comp or self.world).advance(dt)
 
     def advance_to(self, t):
-        self.world.advance_to(t)
+        (self.comp or self.world).advance_to(t)
 
     def next_deadline(self):
-        return self.world.next_deadline()
+        return (self.comp or self.world).next_deadline()
 
 
     def run_until(self, pred, max_dt):
@@ -500,7 +580,10 @@ class FakeAioSession:
             await asyncio.sleep(total if total is not None else 10 ** 6)
             raise asyncio.TimeoutError()
         try:
-            await asyncio.wait_for(asyncio.shield(req._task), total)
+            if hasattr(req, '_task'):
+                await asyncio.wait_for(asyncio.shield(req._task), total)
+            else:
+                await asyncio.wait_for(h.wait_threads(lambda: req.done), total)
         except asyncio.TimeoutError:
             h.world.client_gone(req)
             rec['timed_out'] = True
@@ -538,8 +621,10 @@ class FakeAioSession:
         if f and f['kind'] == 'refuse':
             raise aiohttp.ClientConnectionError('connection refused (scripted)')
         conn = h.world.ws_open(query, headers=list((headers or {}).items()) + [('Host', netloc)],
-                               path=path, scheme='ws')
+                               path=path, scheme='ws' if h.comp is None else 'http')
         rec['conn'] = conn
+        if h.comp is not None:
+            h.comp.conns.append(conn)
         ws = FakeAioWS(h, conn, rec)
         total = getattr(timeout, 'total', timeout)
         try:
